@@ -5,7 +5,7 @@ from core import World, hx, Line, unhx
 from gen import Gen
 from suites import run_suite
 
-LEAN_MODULES = ['GoSnaps.Props.C11']
+LEAN_MODULES = ['GoSnaps.Props.C11', 'GoSnaps.Props.Tie.Path']
 
 DIRS = ['-', 'snaps', 'a/b/__snapshots__', '../shared', './x/../y', '/abs/dir', '/abs/./d/../e/']
 FILES = ['-', 'custom', 'my_test', 'api.v1', 'with.two.dots']
